@@ -25,6 +25,8 @@ EXPLANATION = (
     " (R8) float-valued literal evaluators (float, integer, scientific) return the result of str::parse::<f64>() on text spelled from the literal's tokens; float arithmetic between the digits and the result is allowed only under a guard on the exponent's fractional digits (no decimal spelling exists there)."
     ' (R9) rational(): numerator and denominator are parsed with parse::<i64>() and reach R64::new without a cast or a detour through f64.'
     " (R10) suffixed / annotated integer digits reach their integer kind through an integer parse (today they go through integer()'s f64: known finding)."
+    " (R11) complex(): each part is real()'s result converted by a conversion that is total on the numeric variants untyped literal forms evaluate to (a Value method with an arm for each, or a match naming each); "
+    "a variant pattern that accepts fewer and defaults the rest to a constant is reported."
 )
 RADIX = {"Hexadecimal": ("0x", "16"), "Octal": ("0o", "8"), "Binary": ("0b", "2"), "Decimal": ("0d", "10")}
 
@@ -69,7 +71,7 @@ def const_text(P, e):
 
 
 def inlined_helpers(e):
-    return sorted({inlined_name(b) for b in find(e, "block") if inlined_name(b)})
+    return sorted({inlined_name(b) for b in find(e, "block") if inlined_name(b) and inlined_name(b) != "closure"})
 
 
 def _unparen(e):
@@ -697,6 +699,7 @@ def run(F, rep, tier):
         if name not in reached and name != "real":
             parse_type_check("fn:" + name, name + "()", it["body"])
     rep.floor("C13-R7", "from_str_radix call sites in the literal evaluators", n7, 4)
+    run_r11(F, rep, lit, prov, arms)
     run_r8(F, rep)
 
 
@@ -759,6 +762,167 @@ def is_float_arith(e, fl):
     return False
 
 
+def _calls_fn(P, e, name, depth=6):
+    """the value of `e` is (computed from) the result of a call of the module function `name`: directly, through `?`, references, method chains,
+    or through named locals / parameters of inlined helpers and closures"""
+    if depth <= 0:
+        return False
+    for n in walk(e):
+        if n[0] == "call" and (path_of(n[1]) or "").split("::")[-1] == name:
+            return True
+        if n[0] == "path":
+            i = P.init(n)
+            if i is not None and _calls_fn(P, i, name, depth - 1):
+                return True
+    return False
+
+
+def _direct_result(P, e, name, depth=6):
+    """`e` IS the result of a call of `name` (possibly unwrapped by `?`, referenced, copied, or held in a named local), not something computed from it"""
+    while depth > 0:
+        depth -= 1
+        e = _unparen(e)
+        if not is_node(e):
+            return False
+        if e[0] == "try" or e[0] == "paren":
+            e = e[1]
+        elif e[0] == "ref" or (e[0] == "un" and e[1] == "*"):
+            e = e[2]
+        elif e[0] == "mcall" and e[2] in ("clone", "borrow", "as_ref", "to_owned", "unwrap", "expect") :
+            e = e[1]
+        elif e[0] == "path":
+            i = P.init(e)
+            if i is None:
+                return False
+            e = i
+        elif e[0] in ("block", "unsafe"):
+            e = _tail(e)
+        else:
+            return e[0] == "call" and (path_of(e[1]) or "").split("::")[-1] == name
+    return False
+
+
+def run_r11(F, rep, lit, prov, arms):
+    """C13-R11: the parts of a complex literal keep their value whatever literal form spells them"""
+    rule = "C13-R11"
+    rep.rule(rule, "complex(): each part is the result of real() converted to f64 by a conversion that is total on the numeric Value variants the untyped literal forms evaluate to "
+                   "(those that Value::as_f64 converts: F64 from integer / float / scientific spellings, I64 from the based spellings): either a Value method whose definition has an arm "
+                   "for each of them, or a match / if-let that names each of them; a conversion that accepts fewer variants and defaults the rest to a constant silently drops the other "
+                   "literal forms (`0x10+2i` -> 0+2i)")
+    if not rep.check("complex" in lit, rule, "anchor:complex", "interpreter::literals::complex not found"):
+        return
+    it = inline_item(lit["complex"], lit, 3, stop=DISPATCH)
+    P = prov(it)
+    body = it["body"]
+    # numeric variants an untyped part can evaluate to: what the evaluator arms of the literal forms build (the negation arm rebuilds what it is
+    # given, the suffixed form is not a part of a complex literal)
+    produced = set()
+    for v, bodies in arms.items():
+        if v in ("Negated", "TypedInteger"):
+            continue
+        for a in bodies:
+            produced |= {m.group(1) for x in find(a, "call") for m in [re.match(r"^(?:.*::)?Value::(\w+)$", path_of(x[1]) or "")] if m}
+    # the total conversion: Value::as_f64 in mech_core; its arms say which variants have an f64 image
+    methods = {}
+    for m in F.syn("mech_core.lib"):
+        if m.get("k") == "method" and re.sub(r"<.*", "", (m.get("self") or "")).strip().split("::")[-1] == "Value" and m.get("body") is not None:
+            methods.setdefault(m["name"], set()).update(v for _, pat, _ in variant_arms(m["body"], "Value") for v in pat_variants(pat, "Value"))
+    convertible = methods.get("as_f64", set())
+    required = produced & convertible
+    rep.floor(rule, "numeric Value variants an untyped literal part evaluates to and Value::as_f64 converts", len(required), 2)
+    sites = 0
+    # (i) conversions by a method of Value applied to real()'s result
+    for m in find(body, "mcall"):
+        if _direct_result(P, m[1], "real") and m[2] in methods and methods[m[2]]:
+            sites += 1
+            missing = sorted(required - methods[m[2]])
+            rep.check(not missing, rule, "complex:part-conversion-total" if not missing else "complex:part-conversion-method-partial:%s" % m[2],
+                      "complex() converts a part with Value::%s, which has no arm for Value::%s: a part spelled in a literal form that evaluates to that variant is not converted" % (m[2], "/".join(missing)),
+                      "complex (mech_interpreter.lib)", sample={"conversion": "Value::" + m[2], "covers": sorted(required)})
+    # (ii) conversions by matching real()'s result against Value variants
+    groups = {}
+    for scrut, pat, arm in variant_arms(body, "Value"):
+        if _direct_result(P, scrut, "real"):
+            g = groups.setdefault(id(scrut), {"named": set(), "node": None})
+            g["named"] |= pat_variants(pat, "Value")
+    for n in walk(body):
+        if n[0] == "match" and id(n[1]) in groups:
+            rest = [a for a in n[2] if not pat_variants(a[0], "Value")]
+            groups[id(n[1])]["silent"] = any(not _diverges_expr(a[2]) for a in rest)
+        elif n[0] == "if" and is_node(n[1]) and n[1][0] == "letc" and id(n[1][2]) in groups:
+            groups[id(n[1][2])]["silent"] = n[3] is None or not _diverges_expr(n[3])
+    for g in groups.values():
+        sites += 1
+        missing = sorted(required - g["named"])
+        ok = not missing or not g.get("silent", True)
+        rep.check(ok, rule, "complex:part-conversion-total" if ok else "complex:part-conversion-partial",
+                  "complex() converts a part by matching only Value::%s and gives every other variant a default value: a part that evaluates to Value::%s (e.g. a based literal, `0x10+2i`) "
+                  "silently becomes that default" % ("/".join(sorted(g["named"])), "/".join(missing)), "complex (mech_interpreter.lib)",
+                  sample={"matched": sorted(g["named"]), "required": sorted(required)})
+    rep.floor(rule, "conversions of a part (result of real()) in complex()", sites, 2)
+    # both components of the constructed number are such converted parts (or a constant for an absent part)
+    news = [c for c in find(body, "call") if re.search(r"(^|::)C64::new$", path_of(c[1]) or "") and len(c[2]) == 2]
+    rep.floor(rule, "C64::new constructions in complex()", len(news), 1)
+    for role, k in (("real", 0), ("imaginary", 1)):
+        if news:
+            # one obligation per role, over every construction (the two arms of `match &num.real` may each construct, or share one construction)
+            ok = all(_calls_fn(P, c[2][k], "real") or (role == "real" and _num_lit(P.resolve(c[2][k])) is not None) for c in news)
+            if role == "real":
+                ok = ok and any(_calls_fn(P, c[2][k], "real") for c in news)
+            rep.check(ok, rule, "complex:%s-part-from-real()" % role, "complex(): the %s component handed to C64::new is not computed from the evaluation of the corresponding part by real()" % role,
+                      "complex (mech_interpreter.lib)")
+
+
+def _diverges_expr(e):
+    """the expression never yields a value to its context: return / break / continue / panic, an `Err(..)` / `None`-free early exit is NOT assumed"""
+    from lib import guards as G
+    e = _unparen(e)
+    if is_node(e) and e[0] in ("block", "unsafe"):
+        return G.diverges(e[1])
+    if is_node(e) and e[0] in ("ret", "break", "continue"):
+        return True
+    if is_node(e) and e[0] == "macro" and re.search(r"(^|::)(panic|unreachable|todo|unimplemented)$", e[1]):
+        return True
+    if is_node(e) and e[0] == "call" and re.search(r"panicking::(panic|panic_fmt|unreachable_display)$|(^|::)unreachable$", path_of(e[1]) or ""):
+        return True
+    return False
+
+
+def all_zero_polarity(P, c, depth=6):
+    """True when the condition `c` holds exactly if every digit of the tested text is `0` (`t.chars().all(|ch| ch == '0')`), False when it holds
+    exactly if some digit is not (`t.chars().any(|ch| ch != '0')`, or a negation of the former); looks through `!` and named locals; None otherwise"""
+    pol = True
+    while depth > 0:
+        depth -= 1
+        c = _unparen(c)
+        if is_node(c) and c[0] == "path":
+            r = _unparen(P.resolve(c))
+            if r is c:
+                return None
+            c = r
+            continue
+        if is_node(c) and c[0] == "un" and c[1] == "!":
+            pol, c = not pol, c[2]
+            continue
+        break
+    if not (is_node(c) and c[0] == "mcall" and c[2] in ("all", "any") and len(c[4]) == 1 and is_node(c[4][0]) and c[4][0][0] == "closure" and len(c[4][0][1]) == 1):
+        return None
+    cl = c[4][0]
+    params = {x[1] for x in walk(cl[1][0]) if x[0] == "pident"}
+    t = _unparen(_tail(cl[2]) if is_node(cl[2]) and cl[2][0] in ("block", "unsafe") else cl[2])
+    if not (is_node(t) and t[0] == "bin" and t[1] in ("==", "!=")):
+        return None
+    for x, z in ((t[2], t[3]), (t[3], t[2])):
+        x, z = _unparen(strip_refs(_unparen(x))), _unparen(strip_refs(_unparen(z)))
+        if is_node(z) and z[0] in ("char", "lit") and str(z[1]).strip("b'") == "0" and path_of(x) in params:
+            if c[2] == "all" and t[1] == "==":
+                return pol
+            if c[2] == "any" and t[1] == "!=":
+                return not pol
+            return None
+    return None
+
+
 def run_r8(F, rep):
     """C13-R8: float-valued literal evaluators return what the correctly rounded parser returns"""
     from lib import guards as G
@@ -794,7 +958,12 @@ def run_r8(F, rep):
                 continue            # multiplication by a selected +1 / -1 is exact: it is how a sign is applied, not a scaling step
             guarded = False
             for c, pol in G.atoms(facts):
-                if not pol and frac is not None and within(P.roots(c), frac):
+                if frac is None or not within(P.roots(c), frac):
+                    continue
+                z = all_zero_polarity(P, c)
+                # the facts must say "the exponent has fractional digits": a recognised all-zero test that is false, its complement
+                # (`any(|ch| ch != '0')`, possibly through a named local) that is true; an unrecognised predicate on those digits as before: false
+                if (not pol) if z is None else (z != pol):
                     guarded = True
             key = "%s:float-arithmetic:%s" % (name, re.sub(r"\s", "", P.shape(e))[:50])
             rep.check(guarded, "C13-R8", key if not guarded else "%s:arithmetic-only-for-fractional-exponent" % name,
